@@ -62,8 +62,11 @@ CbInputs ==
             : g \in fbleft, r \in (IF nfault < MaxFaults THEN BOOLEAN ELSE {FALSE})}
     ELSE IF Head(todo).k \in Pseudo THEN {}
     ELSE LET s == Head(todo) IN
-         {[e |-> "cb", k |-> s.k, o |-> s.o, key |-> "", raise |-> r, w |-> w, adv |-> a, ret |-> 0, eng |-> g, dsw |-> dw]
-            : dw \in (IF nchg < MaxChg /\ s.k \in {"on_disable", "teleopInit", "disabledInit", "teleopPeriodic"}
+         {[e |-> "cb", k |-> s.k, o |-> s.o, key |-> "", raise |-> r, w |-> w, adv |-> a, ret |-> 0, eng |-> g, dsw |-> dw,
+           endc |-> ec]
+            : ec \in (IF AllowEnd /\ ~exit /\ nchg < MaxChg /\ s.k \in {"on_enable", "teleopPeriodic", "execute", "auto.on_iteration"}
+                      THEN BOOLEAN ELSE {FALSE}),
+              dw \in (IF nchg < MaxChg /\ s.k \in {"on_disable", "teleopInit", "disabledInit", "teleopPeriodic"}
                       THEN {""} \cup ({"disabled", "teleop", "auto"} \ {dsNew}) ELSE {""}),
               r \in (IF nfault < MaxFaults /\ s.k # "setup" THEN BOOLEAN ELSE {FALSE}),
               w \in WritesFor(s.k, s.o),
@@ -87,7 +90,7 @@ Inputs == CbInputs \cup EnvInputs
 MCNext ==
     IF SilentEnabled THEN Silent /\ UNCHANGED nchg
     ELSE \E ev \in Inputs : /\ EvNext(ev)
-                            /\ nchg' = nchg + (IF ev.e \in {"ds", "fms", "sel", "end", "choose"} \/ (ev.e = "cb" /\ "dsw" \in DOMAIN ev /\ ev.dsw # "")
+                            /\ nchg' = nchg + (IF ev.e \in {"ds", "fms", "sel", "end", "choose"} \/ (ev.e = "cb" /\ "dsw" \in DOMAIN ev /\ (ev.dsw # "" \/ ev.endc))
                                                THEN 1 ELSE 0)
 MCSpec == MCInit /\ [][MCNext]_<<rvars, nchg>>
 
@@ -110,6 +113,7 @@ Probe_SelectOverrides == ~(mode = "auto" /\ active # None /\ active # sh.defmode
 Probe_ResetWritten == ~(\E c \in CompSet : \E a \in DOMAIN sh.resets[c] : rv[c][a] # sh.resets[c][a])
 Probe_Overrun == ~(pc = "wait" /\ now > alarm)
 Probe_Exited == pc # "exited"
+Probe_EndMidIteration == ~(exit /\ pc = "body" /\ todo # <<>> /\ mode \in {"teleop", "auto"})   \* endCompetition() from a callback
 Probe_SmGo == ~(\E c \in sh.sm : smReq[c] /\ NextSite = Site("execute", c))
 Probe_SmReqSurvivesDisable == ~(\E c \in sh.sm : smReq[c] /\ mode = "disabled" /\ pc = "wait")   \* engaged from disabledPeriodic
 \* the driver station changed its mind while the robot was leaving a mode: the dispatcher acts on the word it polled
